@@ -11,6 +11,7 @@ The iterator idioms `block.stmts().next()` / `block.stmts().count()` are replace
 with a sequence contract (class A: Block::stmts yields the statements of the block in order)."""
 from gen import Unit, Fn, Item, Raw, RawFile, Hole, After, Before, Loop, Between, DebugAsserts, InlineClosure
 from common import *
+import lists as LISTS
 
 TU = "src/formatters/trivia_util.rs"
 GEN = "src/formatters/general.rs"
@@ -57,7 +58,7 @@ pub open spec fn same_census(a: &If, r: &If) -> bool {
 @@IFSPECS@@
 // ---- function bodies ----
 pub open spec fn fb_block(f: &FunctionBody) -> Block { n_fb_block(f) }
-#[verifier::external_type_specification] #[verifier::external_body] pub struct ExParameter(full_moon::ast::Parameter);
+#[verifier::external_type_specification] pub struct ExParameter(full_moon::ast::Parameter);
 #[cfg(feature = "luau")] #[verifier::external_type_specification] #[verifier::external_body] pub struct ExTypeSpecifier(full_moon::ast::luau::TypeSpecifier);
 #[cfg(feature = "luau")] #[verifier::external_type_specification] #[verifier::external_body] pub struct ExGenericDeclaration(full_moon::ast::luau::GenericDeclaration);
 @@FBSPECS@@
@@ -65,10 +66,10 @@ pub uninterp spec fn fb_paren_trail_comments(f: &FunctionBody) -> bool;   // a c
 pub uninterp spec fn fb_end_lead_comments(f: &FunctionBody) -> bool;      // a comment in front of `end`
 """
 
-FB_SPECS = node_specs("FunctionBody", "n_fb", [("parameters_parentheses", "ContainedSpan", "-"), ("parameters", "Punctuated<full_moon::ast::Parameter>", "-"), ("block", "Block", "ref"), ("end_token", "TokenReference", "-")]) + """
-#[cfg(feature = "luau")] pub assume_specification [FunctionBody::with_generics] (n: FunctionBody, v: Option<full_moon::ast::luau::GenericDeclaration>) -> (r: FunctionBody) ensures n_fb_block(&r) == n_fb_block(&n);
-#[cfg(feature = "luau")] pub assume_specification [FunctionBody::with_type_specifiers] (n: FunctionBody, v: Vec<Option<full_moon::ast::luau::TypeSpecifier>>) -> (r: FunctionBody) ensures n_fb_block(&r) == n_fb_block(&n);
-#[cfg(feature = "luau")] pub assume_specification [FunctionBody::with_return_type] (n: FunctionBody, v: Option<full_moon::ast::luau::TypeSpecifier>) -> (r: FunctionBody) ensures n_fb_block(&r) == n_fb_block(&n);
+FB_SPECS = node_specs("FunctionBody", "n_fb", [("parameters_parentheses", "ContainedSpan", "-"), ("parameters", "Punctuated<full_moon::ast::Parameter>", "ref"), ("block", "Block", "ref"), ("end_token", "TokenReference", "-")]) + """
+#[cfg(feature = "luau")] pub assume_specification [FunctionBody::with_generics] (n: FunctionBody, v: Option<full_moon::ast::luau::GenericDeclaration>) -> (r: FunctionBody) ensures n_fb_block(&r) == n_fb_block(&n), n_fb_parameters(&r) == n_fb_parameters(&n);
+#[cfg(feature = "luau")] pub assume_specification [FunctionBody::with_type_specifiers] (n: FunctionBody, v: Vec<Option<full_moon::ast::luau::TypeSpecifier>>) -> (r: FunctionBody) ensures n_fb_block(&r) == n_fb_block(&n), n_fb_parameters(&r) == n_fb_parameters(&n);
+#[cfg(feature = "luau")] pub assume_specification [FunctionBody::with_return_type] (n: FunctionBody, v: Option<full_moon::ast::luau::TypeSpecifier>) -> (r: FunctionBody) ensures n_fb_block(&r) == n_fb_block(&n), n_fb_parameters(&r) == n_fb_parameters(&n);
 """
 SPEC = SPEC_A.replace("@@FBSPECS@@", FB_SPECS).replace("@@IFSPECS@@", node_specs("If", "n_if", [("if_token", "TokenReference", "ref"), ("condition", "Expression", "ref"), ("then_token", "TokenReference", "ref"), ("block", "Block", "ref"),
     ("else_if", "Vec<ElseIf>", "opt"), ("else_token", "TokenReference", "opt"), ("else_block", "Block", "opt", "with_else"), ("end_token", "TokenReference", "-")]))
@@ -82,7 +83,6 @@ WRAP = r"""
     ensures (r is Some) == (n_if_else_if(if_node) is Some), r is Some ==> r->Some_0@.len() == n_if_else_if(if_node)->Some_0@.len() { unimplemented!() /* if_node.else_if().map(|l| l.iter().map(|e| format_else_if(ctx, e, shape)).collect()) */ }
 // format_function_body: the parts that are closures / iterator chains over parameters and Luau annotations (none of them touches the block)
 #[cfg(feature = "luau")] #[verifier::external_body] pub fn format_optional_generics(ctx: &Context, function_body: &FunctionBody, shape: Shape) -> Option<full_moon::ast::luau::GenericDeclaration> { unimplemented!() }
-#[verifier::external_body] pub fn format_parameters_either(ctx: &Context, function_body: &FunctionBody, shape: Shape, multiline: bool) -> (ContainedSpan, Punctuated<full_moon::ast::Parameter>) { unimplemented!() }
 #[cfg(feature = "luau")] #[verifier::external_body] pub fn format_specifiers(ctx: &Context, function_body: &FunctionBody, shape: Shape, multiline_params: bool) -> (Vec<Option<full_moon::ast::luau::TypeSpecifier>>, Option<full_moon::ast::luau::TypeSpecifier>) { unimplemented!() }
 #[verifier::external_body] pub fn first_line_trailing<R>(ctx: &Context, function_body: &FunctionBody, parameters_parentheses: ContainedSpan, return_type: R, singleline_function: bool) -> (ContainedSpan, R) { unimplemented!() }
 #[verifier::external_body] pub fn stmt_count(b: &Block) -> (r: usize) ensures r == block_stmts(b).len() { unimplemented!() /* b.stmts().count() */ }
@@ -192,14 +192,97 @@ impl UpdateTrailingTrivia for LastStmt {
     #[verifier::external_body] fn update_trailing_trivia(&self, trailing_trivia: FormatTriviaType) -> (r: Self) { unimplemented!() }
 }
 """),
+        # ---- the parameters of a function: format_parameter, format_singleline_parameters (real text), and the choice between the two list layouts
+        Raw(LISTS.SPEC, module="formatters::general"),
+        Fn(GEN, "format_contained_punctuated_multiline", mode="stub", proved_in="lists", contract="""
+    requires forall|i: int, s: Shape| 0 <= i < ppairs(*arguments).len() ==> #[trigger] argument_formatter.requires((ctx, &pair_value(ppairs(*arguments)[i]), s)),
+    ensures ppairs(r.1).len() == ppairs(*arguments).len(),
+            forall|i: int| 0 <= i < ppairs(*arguments).len() ==> by_item_formatter_modulo_trivia(argument_formatter, ctx, pair_value(#[trigger] ppairs(*arguments)[i]), pair_value(ppairs(r.1)[i])),
+"""),
+        Fn(GEN, "format_contained_span", mode="stub"),
+        Fn(GEN, "format_token_reference", mode="stub", proved_in="tok", contract="ensures tok_of(r) == tok_of(*token_reference),"),
+        Raw("""
+// what a parameter is, trivia aside: a name or `...`
+pub open spec fn param_sem(p: Parameter) -> (int, int) { match p { Parameter::Ellipsis(t) => (0, 0), Parameter::Name(t) => (1, tok_of(t)), _ => (2, 0) } }
+pub open spec fn param_sig(p: Punctuated<Parameter>) -> Seq<(int, int)> { ppairs(p).map_values(|x: Pair<Parameter>| param_sem(pair_value(x))) }
+impl UpdateLeadingTrivia for Parameter {
+    open spec fn same_sem(&self, r: &Self) -> bool { param_sem(*r) == param_sem(*self) }
+    open spec fn lead_ok(&self, t: FormatTriviaType, r: &Self) -> bool { true }
+    open spec fn on_new_line(&self) -> bool { other_nl(*self) }
+    open spec fn rest_same(&self, r: &Self) -> bool { true }
+    #[verifier::external_body] fn update_leading_trivia(&self, leading_trivia: FormatTriviaType) -> (r: Self) { unimplemented!() }
+}
+impl UpdateTrailingTrivia for Parameter {
+    open spec fn same_sem_t(&self, r: &Self) -> bool { param_sem(*r) == param_sem(*self) }
+    open spec fn trail_ok(&self, t: FormatTriviaType, r: &Self) -> bool { true }
+    open spec fn not_open(&self) -> bool { other_closed(*self) }
+    #[verifier::external_body] fn update_trailing_trivia(&self, trailing_trivia: FormatTriviaType) -> (r: Self) { unimplemented!() }
+}
+impl GetTrailingTrivia for Parameter {
+    open spec fn ends_open(&self) -> bool { other_line_open(*self) }
+    #[verifier::external_body] fn trailing_trivia(&self) -> Vec<Token> { unimplemented!() }
+    #[verifier::external_body] fn has_trailing_comments(&self, search: CommentSearch) -> (r: bool) { unimplemented!() }
+    #[verifier::external_body] fn trailing_comments(&self) -> Vec<Token> { unimplemented!() }
+}
+""", module="formatters::functions"),
+        Fn(FUN, "format_parameter", contract="ensures param_sem(r) == param_sem(*parameter), //# C02.parameter_same"),
+        Fn(FUN, "format_singleline_parameters", contract="""
+    ensures ppairs(r).len() == ppairs(n_fb_parameters(function_body)).len(), //# C02.function_parameters_same
+            param_sig(r) == param_sig(n_fb_parameters(function_body)), //# C02.function_parameters_same
+""", edits=[
+            Hole("for pair in function_body.parameters().pairs() {", "let mut vx_it = peekable(function_body.parameters().pairs());\n    let ghost mut k: int = 0;\n    while let Some(pair) = vx_it.next() {", kind="desugar", why="for over an iterator: written as its definition, through the Peekable wrapper"),
+            Between("let punctuation = pair", ".map(|punctuation| fmt_symbol!(ctx, punctuation, \", \", shape));", "let punctuation = match pair.punctuation() { Some(punctuation) => Some(fmt_symbol!(ctx, punctuation, \", \", shape)), None => None };", kind="rewrite", why="Option::map with a closure, written as the match it is"),
+            Loop("while let Some(pair) = vx_it.next()", """
+        invariant
+            0 <= k <= ppairs(n_fb_parameters(function_body)).len(),
+            pk_rest(&vx_it).len() == ppairs(n_fb_parameters(function_body)).len() - k,
+            forall|j: int| 0 <= j < pk_rest(&vx_it).len() ==> *(#[trigger] pk_rest(&vx_it)[j]) == ppairs(n_fb_parameters(function_body))[k + j],
+            ppairs(formatted_parameters).len() == k, //# C02.function_parameters_loop
+            forall|i: int| 0 <= i < k ==> param_sem(pair_value(#[trigger] ppairs(formatted_parameters)[i])) == param_sem(pair_value(ppairs(n_fb_parameters(function_body))[i])), //# C02.function_parameters_loop
+        ensures k == ppairs(n_fb_parameters(function_body)).len(),
+        decreases pk_rest(&vx_it).len(),
+""", step="proof { k = k + 1; }"),
+            After("formatted_parameters\n}", "", optional=True) if False else Before("formatted_parameters\n", "proof { assert(param_sig(formatted_parameters) =~= param_sig(n_fb_parameters(function_body))); }\n    "),
+        ]),
+        Raw("""
+// the choice between the two layouts of the parameter list: the expression this function's body is, in format_function_body
+pub fn format_parameters_either(ctx: &Context, function_body: &FunctionBody, shape: Shape, multiline_params: bool) -> (r: (ContainedSpan, Punctuated<Parameter>))
+    ensures ppairs(r.1).len() == ppairs(n_fb_parameters(function_body)).len(), param_sig(r.1) == param_sig(n_fb_parameters(function_body)),
+{
+    proof { assert forall|i: int, s: Shape| 0 <= i < ppairs(n_fb_parameters(function_body)).len() implies #[trigger] call_requires(format_parameter, (ctx, &pair_value(ppairs(n_fb_parameters(function_body))[i]), s)) by { } }
+    let r = match multiline_params {
+        true => format_contained_punctuated_multiline(
+            ctx,
+            function_body.parameters_parentheses(),
+            function_body.parameters(),
+            format_parameter,
+            shape,
+        ),
+        false => (
+            format_contained_span(ctx, function_body.parameters_parentheses(), shape),
+            format_singleline_parameters(ctx, function_body, shape),
+        ),
+    };
+    proof {
+        if multiline_params {
+            assert forall|i: int| 0 <= i < ppairs(r.1).len() implies param_sem(pair_value(#[trigger] ppairs(r.1)[i])) == param_sem(pair_value(ppairs(n_fb_parameters(function_body))[i])) by {
+                assert(by_item_formatter_modulo_trivia(format_parameter, ctx, pair_value(ppairs(n_fb_parameters(function_body))[i]), pair_value(ppairs(r.1)[i])));
+            }
+        }
+        assert(param_sig(r.1) =~= param_sig(n_fb_parameters(function_body)));
+    }
+    r
+}
+""", module="verif_collapse"),
         Fn(TU, "spans_multiple_lines", mode="stub", sig_edits=[Hole("<T: std::fmt::Display>", "<T>", kind="proxy", why="std::fmt::Display bound dropped on the stub")]),
         Fn(FUN, "format_function_body", contract="""
     ensures census(&n_fb_block(&r)) == census(&n_fb_block(function_body)), //# C02.function_body_keeps_statements
+            param_sig(n_fb_parameters(&r)) == param_sig(n_fb_parameters(function_body)), //# C02.function_parameters_same
 """, edits=[
             Between("let multiline_params = {", "should_parameters_format_multiline(ctx, function_body, shape, should_collapse)\n    };", "let multiline_params = hole_bool();", why="closures over the parameters and their Luau type specifiers: decides the layout of the parameter list only"),
             Between("let generics = function_body", ".map(|generic_declaration| format_generic_declaration(ctx, generic_declaration, shape));", "let generics = verif_collapse::format_optional_generics(ctx, function_body, shape);", why="closure over the optional Luau generics"),
             Hole("let shape = shape + generics.as_ref().map_or(0, |x| x.to_string().len());", "let shape = shape + hole_usize();", why="Display width of the generics"),
-            Between("let (parameters_parentheses, formatted_parameters) = match multiline_params {", "format_singleline_parameters(ctx, function_body, shape),\n        ),\n    };", "let (parameters_parentheses, formatted_parameters) = verif_collapse::format_parameters_either(ctx, function_body, shape, multiline_params);", why="generic list formatter taking a formatter function value / the single-line parameter formatter"),
+            Between("let (parameters_parentheses, formatted_parameters) = match multiline_params {", "format_singleline_parameters(ctx, function_body, shape),\n        ),\n    };", "let (parameters_parentheses, formatted_parameters) = verif_collapse::format_parameters_either(ctx, function_body, shape, multiline_params);", kind="wrapper", why="the choice between the two layouts of the parameter list: a verified wrapper whose body is this expression (the multi-line branch from the generic list contract proved in unit lists, the one-line branch from format_singleline_parameters)"),
             Between("let (type_specifiers, return_type) = {", ".map(|return_type| format_type_specifier(ctx, return_type, shape)),\n        )\n    };", "let (type_specifiers, return_type) = verif_collapse::format_specifiers(ctx, function_body, shape, multiline_params);", why="closures over the Luau type specifiers and the return type"),
             InlineClosure("create_normal_block"),
             Hole('const PARENS_LEN: usize = "()".len();', "let PARENS_LEN: usize = hole_usize();", why="str::len in a const: a width, used for layout only"),
@@ -211,6 +294,9 @@ impl UpdateTrailingTrivia for LastStmt {
     return its
 
 LABELS = {
+    "C02.parameter_same": dict(props=["C02"], text="format_parameter: a name stays the same name, `...` stays `...`; the `unknown node` arm is unreachable"),
+    "C02.function_parameters_same": dict(props=["C02"], text="format_singleline_parameters / format_function_body: as many parameters as the input, parameter i the input's parameter i, whichever layout the list gets"),
+    "C02.function_parameters_loop": dict(props=["C02"], text="format_singleline_parameters loop invariant: the parameters pushed so far are the input's, in order"),
     "C02.empty_block_is_empty": dict(props=["C02"], text="is_block_empty: true exactly for a block without statement and without last statement"),
     "C02.if_guard_is_one_statement": dict(props=["C02", "C07"], text="is_if_guard: an `if` that is collapsed has no elseif / else and exactly one statement of a printable kind in its body"),
     "C03.if_guard_has_no_comments": dict(props=["C03"], text="is_if_guard: an `if` that is collapsed has no comment in its body (the one-line form replaces the statement's trivia) and none on `then` (a line comment there would swallow the body)"),
@@ -223,4 +309,4 @@ LABELS = {
     "C02.simple_block_is_one_statement": dict(props=["C02", "C07"], text="is_block_simple: a block that counts as simple consists of exactly one statement — a last statement, or one assignment / local assignment / call / goto (the kinds the one-line path can print) — and nothing else"),
 }
 
-UNIT = Unit("collapse", items() + [VERIF_MOD], LABELS, macros=[(GEN, "fmt_symbol")], header=HEADER + "use full_moon::ast::ElseIf;\n")
+UNIT = Unit("collapse", items() + [VERIF_MOD], LABELS, macros=[(GEN, "fmt_symbol")], header=HEADER + "use full_moon::ast::ElseIf;\nuse full_moon::ast::punctuated::Pair;\nuse full_moon::ast::Parameter;\n")
